@@ -358,6 +358,39 @@ fn literal_spellings(v: &Val, ty: &Ty, defs: &Defs, canon: &[bool]) -> Vec<(Stri
                     missing.pop();
                     r.push(("field-missing".into(), Literal::Struct(name.clone(), missing), false));
                 }
+                // every sequence of n-1, n and n+1 fields drawn from the struct's own fields: exactly the
+                // permutations are values; repeated (adjacent or not) and missing fields are not
+                if fs.len() <= 3 && !fs.is_empty() {
+                    let n = fs.len();
+                    for len in n.saturating_sub(1).max(1)..=n + 1 {
+                        let mut idx = vec![0usize; len];
+                        'seqs: loop {
+                            let mut seen = vec![false; n];
+                            let mut distinct = true;
+                            for i in &idx {
+                                if seen[*i] {
+                                    distinct = false;
+                                }
+                                seen[*i] = true;
+                            }
+                            let is_value = len == n && distinct;
+                            let lit = Literal::Struct(name.clone(), idx.iter().map(|i| fs[*i].clone()).collect());
+                            r.push((format!("fields{idx:?}"), lit, is_value));
+                            let mut k = 0;
+                            loop {
+                                idx[k] += 1;
+                                if idx[k] < n {
+                                    break;
+                                }
+                                idx[k] = 0;
+                                k += 1;
+                                if k == len {
+                                    break 'seqs;
+                                }
+                            }
+                        }
+                    }
+                }
                 let mut extra = fs.clone();
                 extra.push(("zz".into(), Literal::True));
                 r.push(("field-extra".into(), Literal::Struct(name.clone(), extra), false));
